@@ -9,6 +9,7 @@ import (
 )
 
 const ms = int64(time.Millisecond)
+const sec = int64(time.Second)
 
 type rng struct{ *rand.Rand }
 
@@ -18,8 +19,9 @@ func (r rng) between(lo, hi int64) int64 {
 	}
 	return lo + r.Int63n(hi-lo+1)
 }
-func (r rng) pick(xs ...int64) int64 { return xs[r.Intn(len(xs))] }
-func (r rng) chance(p float64) bool  { return r.Float64() < p }
+func (r rng) pick(xs ...int64) int64    { return xs[r.Intn(len(xs))] }
+func (r rng) chance(p float64) bool     { return r.Float64() < p }
+func (r rng) pick2(xs ...string) string { return xs[r.Intn(len(xs))] }
 
 var families = []string{"G1", "G2", "G3", "G4", "G5", "G6", "G7", "G8"}
 
@@ -109,45 +111,458 @@ func genG1(r rng, n int, t *testing.T) []*Scenario {
 		}
 		span := h * r.pick(8, 12, 20)
 		sc.Until = span
-		for i, in := range sc.Instances {
+		for i := range sc.Instances {
 			at := r.between(0, span/3)
 			if i == 0 {
 				at = r.between(0, h)
 			}
-			sc.Actions = append(sc.Actions, Action{At: at, Do: "start", I: in.ID})
+			script := []Action{{After: at, Do: "start"}}
 			for at < span && r.chance(0.6) {
-				at += r.between(h/2, span/2)
-				if at >= span {
-					break
-				}
+				d := r.between(h/2, span/2)
+				at += d
 				if r.chance(0.5) {
-					sc.Actions = append(sc.Actions, Action{At: at, Do: "stop", I: in.ID})
+					script = append(script, Action{After: d, Do: "stop"})
 				} else {
-					sc.Actions = append(sc.Actions, Action{At: at, Do: "stop_ctx", I: in.ID, Delete: r.chance(0.6), Wait: r.chance(0.5),
+					script = append(script, Action{After: d, Do: "stop_ctx", Delete: r.chance(0.6), Wait: r.chance(0.5),
 						Timeout: r.pick(0, 0, 10*h)})
 				}
+				if r.chance(0.2) {
+					script = append(script, Action{After: r.between(0, h), Do: r.pick2("stop", "stop_ctx")})
+				}
 				if r.chance(0.6) {
-					at += r.between(1, 2*h)
-					if at < span {
-						sc.Actions = append(sc.Actions, Action{At: at, Do: "start", I: in.ID})
-					}
+					d = r.between(1, 2*h)
+					at += d
+					script = append(script, Action{After: d, Do: "start"})
 				} else {
 					break
 				}
 			}
+			sc.Instances[i].Script = script
 		}
-		if r.chance(0.5) {
-			sc.Grid = h / 2
-		}
+		sc.Grid = h / 2
 		out = append(out, sc)
 	}
 	return out
 }
 
-func genG2(r rng, n int, t *testing.T) []*Scenario { return nil }
-func genG3(r rng, n int, t *testing.T) []*Scenario { return nil }
-func genG4(r rng, n int, t *testing.T) []*Scenario { return nil }
-func genG5(r rng, n int, t *testing.T) []*Scenario { return nil }
-func genG6(r rng, n int, t *testing.T) []*Scenario { return nil }
-func genG7(r rng, n int, t *testing.T) []*Scenario { return nil }
-func genG8(r rng, n int, t *testing.T) []*Scenario { return nil }
+// firstLeaderScript: n1 starts at once, the others a little later, nobody stops.
+func startAll(sc *Scenario, r rng, h int64) {
+	for i := range sc.Instances {
+		at := int64(0)
+		if i > 0 {
+			at = r.between(h/4, 2*h)
+		}
+		sc.Instances[i].Script = []Action{{After: at, Do: "start"}}
+	}
+}
+
+// G2: faults on the leader's refreshes: attempt index x fault kind, partitions, and the
+// record replaced / deleted / expired underneath.
+func genG2(r rng, n int, t *testing.T) []*Scenario {
+	var out []*Scenario
+	kinds := []string{"err", "timeout", "lostack", "closed", "partition", "extput", "extdel", "expire", "slow"}
+	for k := 0; k < n; k++ {
+		h := r.pick(100*ms, 400*ms, 1000*ms, 2000*ms, 4000*ms)
+		ttl := h * r.pick(3, 4, 6)
+		sc := base(r, int(r.between(1, 2)), h, ttl)
+		sc.Env = []string{"hbfault"}
+		startAll(sc, r, h)
+		if r.chance(0.5) {
+			sc.Instances[0].ValInt = h * r.pick(1, 2, 3)
+		}
+		kind := kinds[k%len(kinds)]
+		att := int(r.between(0, 5))
+		sc.HangNs = r.pick(h/2+1, 1500*ms, 3*h, 10*h)
+		switch kind {
+		case "err", "closed":
+			nth := []int{att}
+			for j := 1; j < int(r.between(1, 4)); j++ {
+				nth = append(nth, att+j)
+			}
+			sc.Rules = append(sc.Rules, Rule{Inst: "n1", Kind: "update", Site: "heartbeatLoop", Nth: nth, Pre: -1, Post: -1, Fault: kind})
+		case "timeout", "lostack":
+			nth := []int{att}
+			for j := 1; j < int(r.between(1, 4)); j++ {
+				nth = append(nth, att+j)
+			}
+			sc.Rules = append(sc.Rules, Rule{Inst: "n1", Kind: "update", Site: "heartbeatLoop", Nth: nth, Pre: -1, Post: -1, Fault: kind})
+		case "partition":
+			from := r.between(h, 6*h)
+			to := from + r.pick(h, 3*h, 100*h)
+			sc.Rules = append(sc.Rules, Rule{Inst: "n1", FromT: from, ToT: to, Pre: -1, Post: -1, Fault: r.pick2("err", "timeout", "closed")})
+		case "extput":
+			sc.Actions = append(sc.Actions, Action{At: r.between(h, 6*h), Do: "ext_put", Key: "g",
+				Str: r.pick2(`{"id":"intruder","token":"stolen","priority":9}`, `{"id":"n1","token":"forged"}`, `garbage`, ``)})
+		case "extdel":
+			sc.Actions = append(sc.Actions, Action{At: r.between(h, 6*h), Do: "ext_del", Key: "g"})
+		case "expire":
+			sc.Actions = append(sc.Actions, Action{At: r.between(h, 6*h), Do: "expire", Key: "g"})
+		case "slow":
+			// slow but successful refreshes (beyond H/2, possibly beyond the operation time-out)
+			sc.Rules = append(sc.Rules, Rule{Inst: "n1", Kind: "update", Site: "heartbeatLoop", Nth: []int{att, att + 1},
+				Pre: r.pick(h/2, 900*ms, 1100*ms, h), Post: r.pick(0, h/2, 1100*ms)})
+		}
+		sc.Until = h*r.pick(12, 20) + 3*sec
+		sc.Grid = h / 2
+		out = append(out, sc)
+	}
+	return out
+}
+
+var tamperCorpus = []string{
+	``, `{}`, `null`, `[]`, `42`, `"str"`, `true`, `{"id":5,"token":"x"}`, `{"id":"n1","token":5}`, `{"id":"n1"}`, `{"token":"t"}`,
+	`{"ID":"n1","Token":"t"}`, `{"id":"n1","token":"t","priority":"high"}`, `{"id":"other","token":"tok","priority":5}`,
+	`{"id":"n1","tok`, "\xff\xfe{\"id\":\"n1\"}", `{"id":"a","id":"n1","token":"t","token":"u"}`, `{"id":"n1","token":"zzz"}`,
+	`{"id":"n2","token":"zzz","priority":-7}`, `{"id":"n1","token":"","priority":0}`, `{"id":"","token":""}`,
+	`{"id":"n1","token":"t","priority":9223372036854775807}`, `{"id":"n1","token":"t","priority":1e3}`, `{"id":null,"token":null}`,
+	`{"id":["n1"],"token":{"a":1}}`, ` {"id":"n1","token":"t"} `, `{"id":"n1","token":"t"}garbage`, `{"id":"n1","token":"t"}`,
+}
+
+// G3: outside interference: arbitrary bytes written/deleted at any moment, for followers,
+// leaders and takeover-enabled candidates.
+func genG3(r rng, n int, t *testing.T) []*Scenario {
+	var out []*Scenario
+	for k := 0; k < n; k++ {
+		h, ttl := timing(r)
+		sc := base(r, int(r.between(1, 3)), h, ttl)
+		sc.Env = []string{"tamper"}
+		startAll(sc, r, h)
+		for i := range sc.Instances {
+			if r.chance(0.5) {
+				sc.Instances[i].Takeover = true
+				sc.Instances[i].Priority = int(r.between(1, 3))
+			} else if r.chance(0.3) {
+				sc.Instances[i].Priority = int(r.between(0, 3))
+			}
+			if r.chance(0.4) {
+				sc.Instances[i].ValInt = h * r.pick(1, 2)
+			}
+		}
+		span := h * r.pick(10, 16)
+		sc.Until = span
+		nw := int(r.between(1, 4))
+		for j := 0; j < nw; j++ {
+			at := r.between(0, span-2*h)
+			switch r.Intn(6) {
+			case 0:
+				sc.Actions = append(sc.Actions, Action{At: at, Do: "ext_del", Key: "g"})
+			case 1:
+				sc.Actions = append(sc.Actions, Action{At: at, Do: "ext_put", Key: "g", Str: strings.Repeat("a", 100000)})
+			default:
+				sc.Actions = append(sc.Actions, Action{At: at, Do: "ext_put", Key: "g", Str: tamperCorpus[r.Intn(len(tamperCorpus))]})
+			}
+		}
+		if r.chance(0.4) {
+			sc.Actions = append(sc.Actions, Action{At: r.between(0, span), Do: r.pick2("validate", "validate_or_demote"), I: "n1"})
+		}
+		sc.Grid = h / 2
+		out = append(out, sc)
+	}
+	return out
+}
+
+// G4: priority takeover: assignments of priorities and flags, start orders, small latencies.
+func genG4(r rng, n int, t *testing.T) []*Scenario {
+	var out []*Scenario
+	for k := 0; k < n; k++ {
+		h := r.pick(200*ms, 400*ms, 1000*ms)
+		ttl := h * r.pick(3, 5)
+		ninst := int(r.between(2, 4))
+		sc := base(r, ninst, h, ttl)
+		sc.Env = []string{"priority"}
+		// latencies up to a tenth of the heartbeat interval (pre+post)
+		sc.Latency = [2]int64{0, r.pick(0, h/40, h/20-1)}
+		sc.WatchDelay = [2]int64{0, r.pick(0, h/20, h/2)}
+		for i := range sc.Instances {
+			sc.Instances[i].Priority = int(r.between(1, 3))
+			sc.Instances[i].Takeover = r.chance(0.7)
+			if r.chance(0.15) {
+				sc.Instances[i].Priority = 0
+				sc.Instances[i].Takeover = false
+			}
+		}
+		// start order: a random permutation with gaps
+		perm := r.Perm(ninst)
+		at := int64(0)
+		for _, i := range perm {
+			sc.Instances[i].Script = []Action{{After: at, Do: "start"}}
+			at += r.pick(0, h/3, 2*h, 4*h)
+		}
+		sc.Until = at + h*r.pick(8, 12)
+		if r.chance(0.25) {
+			j := r.Intn(ninst)
+			sc.Instances[j].Script = append(sc.Instances[j].Script, Action{After: r.between(3*h, 8*h), Do: r.pick2("stop", "stop_ctx"), Delete: r.chance(0.5)})
+		}
+		sc.Grid = h / 2
+		out = append(out, sc)
+	}
+	return out
+}
+
+// G5: connection notifications around the grace boundary, combined with partitions,
+// ownership changes and stops.
+func genG5(r rng, n int, t *testing.T) []*Scenario {
+	var out []*Scenario
+	for k := 0; k < n; k++ {
+		h := r.pick(200*ms, 1000*ms, 2000*ms)
+		ttl := h * r.pick(3, 4)
+		sc := base(r, int(r.between(1, 2)), h, ttl)
+		sc.Env = []string{"connection"}
+		startAll(sc, r, h)
+		sc.Instances[0].Monitor = true
+		grace := int64(0)
+		if r.chance(0.6) {
+			grace = h * r.pick(2, 3, 5)
+			sc.Instances[0].Grace = grace
+		}
+		eff := grace
+		if eff == 0 {
+			eff = 3 * h
+			if eff < 5*sec {
+				eff = 5 * sec
+			}
+		}
+		at := r.between(h, 3*h)
+		nev := int(r.between(1, 5))
+		for j := 0; j < nev; j++ {
+			ev := r.pick2("disconnect", "disconnect", "reconnect", "reconnect", "closed")
+			sc.Actions = append(sc.Actions, Action{At: at, Do: "conn", I: "n1", Ev: ev})
+			at += r.pick(1, 50*ms, 100*ms, 150*ms, eff/2, eff-1, eff, eff+1, eff+h)
+		}
+		if r.chance(0.3) {
+			from := r.between(h, at)
+			sc.Rules = append(sc.Rules, Rule{Inst: "n1", FromT: from, ToT: from + r.pick(h, eff, 2*eff), Pre: -1, Post: -1, Fault: r.pick2("err", "timeout")})
+		}
+		if r.chance(0.25) {
+			sc.Actions = append(sc.Actions, Action{At: r.between(h, at), Do: "ext_put", Key: "g", Str: `{"id":"intruder","token":"x","priority":1}`})
+		}
+		if r.chance(0.3) {
+			sc.Instances[0].Script = append(sc.Instances[0].Script, Action{After: r.between(h, at+eff), Do: r.pick2("stop", "stop_ctx"), Delete: r.chance(0.5), Wait: r.chance(0.5)})
+		}
+		sc.Until = at + 2*eff + 4*h
+		sc.Grid = h / 2
+		out = append(out, sc)
+	}
+	return out
+}
+
+// G6: health results x thresholds x several terms (record expiry enables re-election).
+func genG6(r rng, n int, t *testing.T) []*Scenario {
+	var out []*Scenario
+	for k := 0; k < n; k++ {
+		h := r.pick(100*ms, 200*ms, 1000*ms)
+		ttl := h * 3
+		sc := base(r, int(r.between(1, 2)), h, ttl)
+		sc.Env = []string{"health"}
+		startAll(sc, r, h)
+		hp := &HealthPlan{Default: r.chance(0.7)}
+		ln := int(r.between(3, 24))
+		for j := 0; j < ln; j++ {
+			hp.Results = append(hp.Results, r.chance(0.45))
+			d := int64(0)
+			if r.chance(0.15) {
+				d = r.pick(50*ms, 99*ms, 120*ms, h/2)
+			}
+			hp.DurNs = append(hp.DurNs, d)
+		}
+		sc.Instances[0].Health = hp
+		sc.Instances[0].MaxHealth = int(r.between(0, 4))
+		if len(sc.Instances) > 1 && r.chance(0.5) {
+			sc.Instances[1].Health = &HealthPlan{Default: true}
+		}
+		sc.Until = h * int64(ln+14)
+		sc.Grid = h / 2
+		out = append(out, sc)
+	}
+	return out
+}
+
+// opTimes extracts (issue, apply, ret) instants of the store calls of instance idx from a trace.
+func opTimes(trace []byte, idx int) [][3]int64 {
+	type rec struct{ is, ap, rt int64 }
+	m := map[int64]*rec{}
+	var order []int64
+	for _, line := range strings.Split(string(trace), "\n") {
+		f := strings.Fields(line)
+		if len(f) < 3 {
+			continue
+		}
+		var tt, a, b int64
+		fmt.Sscan(f[0], &tt)
+		switch f[1] {
+		case "issue":
+			fmt.Sscan(f[2], &a)
+			fmt.Sscan(f[3], &b)
+			if int(a) == idx {
+				m[b] = &rec{is: tt, ap: -1, rt: -1}
+				order = append(order, b)
+			}
+		case "apply":
+			fmt.Sscan(f[2], &b)
+			if x, ok := m[b]; ok {
+				x.ap = tt
+			}
+		case "ret":
+			fmt.Sscan(f[3], &b)
+			if x, ok := m[b]; ok {
+				x.rt = tt
+			}
+		}
+	}
+	var out [][3]int64
+	for _, o := range order {
+		out = append(out, [3]int64{m[o].is, m[o].ap, m[o].rt})
+	}
+	return out
+}
+
+// G7: stop points: for a store call of the stopping instance, stop immediately before it,
+// between issue and application, between application and response, immediately after, and
+// exactly at its instants; for each stop variant. The base run tells where the calls are.
+func genG7(r rng, n int, t *testing.T) []*Scenario {
+	var out []*Scenario
+	for len(out) < n {
+		h := r.pick(200*ms, 400*ms, 1000*ms)
+		ttl := h * r.pick(3, 4)
+		ninst := int(r.between(1, 3))
+		sc := base(r, ninst, h, ttl)
+		sc.Env = []string{"stoppoint"}
+		q := h/4 - 1
+		sc.Latency = [2]int64{q / 4, q}
+		startAll(sc, r, h)
+		for i := range sc.Instances {
+			if r.chance(0.4) {
+				sc.Instances[i].Takeover = true
+				sc.Instances[i].Priority = int(r.between(1, 3))
+			}
+			if r.chance(0.3) {
+				sc.Instances[i].ValInt = h
+			}
+			if r.chance(0.3) {
+				sc.Instances[i].Promote = "block"
+			}
+			if r.chance(0.3) {
+				sc.Instances[i].DemoteNs = r.between(0, h)
+			}
+		}
+		if r.chance(0.3) {
+			sc.Instances[0].Monitor = true
+			sc.Actions = append(sc.Actions, Action{At: r.between(h, 3*h), Do: "conn", I: "n1", Ev: "disconnect"},
+				Action{At: r.between(3*h, 5*h), Do: "conn", I: "n1", Ev: "reconnect"})
+		}
+		if r.chance(0.3) {
+			sc.Actions = append(sc.Actions, Action{At: r.between(h, 4*h), Do: r.pick2("ext_del", "expire"), Key: "g"})
+		}
+		sc.Until = h * 8
+		sc.Grid = h / 2
+		baseTrace, _ := Run(t, sc)
+		victim := int(r.between(1, int64(ninst)))
+		ops := opTimes(baseTrace, victim)
+		if len(ops) == 0 {
+			continue
+		}
+		// derive several stop points from this base
+		for d := 0; d < 6 && len(out) < n; d++ {
+			op := ops[r.Intn(len(ops))]
+			if op[1] < 0 || op[2] < 0 {
+				continue
+			}
+			var at int64
+			switch r.Intn(7) {
+			case 0:
+				at = op[0] - 1
+			case 1:
+				at = op[0]
+			case 2:
+				at = (op[0] + op[1]) / 2
+			case 3:
+				at = op[1]
+			case 4:
+				at = (op[1] + op[2]) / 2
+			case 5:
+				at = op[2]
+			default:
+				at = op[2] + 1
+			}
+			if at < 1 {
+				at = 1
+			}
+			c := *sc
+			c.Instances = append([]InstSpec(nil), sc.Instances...)
+			c.Actions = append([]Action(nil), sc.Actions...)
+			id := c.Instances[victim-1].ID
+			stop := Action{At: at, Do: "stop", I: id}
+			if r.chance(0.65) {
+				stop = Action{At: at, Do: "stop_ctx", I: id, Delete: r.chance(0.6), Wait: r.chance(0.5), Timeout: r.pick(0, 0, h/2, 10*h), CtxNs: r.pick(0, 0, h/4, 20*h)}
+			}
+			if r.chance(0.3) {
+				stop.Then = &Action{After: r.pick(0, 1, h/2, 6*sec), Do: r.pick2("stop", "stop_ctx", "start")}
+			}
+			c.Actions = append(c.Actions, stop)
+			c.Until = sc.Until + 6*sec
+			out = append(out, &c)
+		}
+	}
+	return out
+}
+
+// G8: vacancy: the leader shuts down with deletion, is cut off until its record expires, or
+// the record is removed; candidates with lost / delayed / closed / failing watches and
+// transient store failures.
+func genG8(r rng, n int, t *testing.T) []*Scenario {
+	var out []*Scenario
+	for k := 0; k < n; k++ {
+		h := r.pick(100*ms, 200*ms, 1000*ms)
+		ttl := h * r.pick(3, 4)
+		ninst := int(r.between(2, 4))
+		sc := base(r, ninst, h, ttl)
+		sc.Env = []string{"vacancy"}
+		sc.Latency = [2]int64{0, r.pick(0, h/20, h/8)}
+		startAll(sc, r, h)
+		tv := r.between(3*h, 6*h)
+		switch r.Intn(4) {
+		case 0:
+			sc.Instances[0].Script = append(sc.Instances[0].Script, Action{After: tv, Do: "stop_ctx", Delete: true})
+		case 1:
+			// the leader is cut off for good: its record expires
+			sc.Rules = append(sc.Rules, Rule{Inst: "n1", FromT: tv, ToT: 1 << 60, Pre: -1, Post: -1, Fault: r.pick2("timeout", "err")})
+			sc.Actions = append(sc.Actions, Action{At: tv, Do: "crash", I: "n1"})
+		case 2:
+			sc.Actions = append(sc.Actions, Action{At: tv, Do: "ext_del", Key: "g"})
+		case 3:
+			sc.Instances[0].Script = append(sc.Instances[0].Script, Action{After: tv, Do: "stop"})
+		}
+		sc.Watch = map[string]WatchPlan{}
+		for i := 1; i < ninst; i++ {
+			id := sc.Instances[i].ID
+			wp := WatchPlan{Only: -1}
+			switch r.Intn(5) {
+			case 0:
+				wp.Drop = []int{-1}
+			case 1:
+				for j := 0; j < 30; j++ {
+					if r.chance(0.5) {
+						wp.Drop = append(wp.Drop, j)
+					}
+				}
+			case 2:
+				wp.CloseAfter = int(r.between(1, 6))
+				wp.Only = 0
+			case 3:
+				sc.Rules = append(sc.Rules, Rule{Inst: id, Kind: "watch", Nth: []int{0}, Pre: -1, Post: -1, Fault: "err"})
+			}
+			wp.Delay = [2]int64{0, r.pick(0, h, 3*h)}
+			sc.Watch[id] = wp
+			if r.chance(0.3) {
+				// transient failures of the candidate's reads/creates that cease before the vacancy
+				from := r.between(0, tv-h)
+				sc.Rules = append(sc.Rules, Rule{Inst: id, FromT: from, ToT: from + r.between(1, tv-h-from+1), Pre: -1, Post: -1, Fault: r.pick2("err", "timeout")})
+				sc.HangNs = h
+			}
+		}
+		sc.Until = tv + ttl + 4*h + 2*sec
+		sc.Grid = h / 2
+		out = append(out, sc)
+	}
+	return out
+}
